@@ -57,7 +57,7 @@ func (g *qgen) query(depth int, bound map[string]bool) (M, map[string]bool) {
 	}
 	switch rapid.SampledFrom(kinds).Draw(g.t, l+".kind") {
 	case "pattern":
-		po := gen.PatOpts{Opts: gen.Opts{NoArrayMaps: true}}
+		po := gen.PatOpts{Opts: gen.Opts{NoArrayMaps: true}, PropVar: true}
 		var p M
 		if len(g.facts) > 0 && rapid.IntRange(0, 5).Draw(g.t, l+".derived?") != 0 {
 			p = gen.Derive(g.t, po, rapid.SampledFrom(g.facts).Draw(g.t, l+".from"), l+".pat")
@@ -180,6 +180,29 @@ func genC03(t *rapid.T) c03Case {
 		}
 		bound["?x"] = true
 	}
+	if rapid.IntRange(0, 9).Draw(t, "propchain?") == 0 {
+		// a variable bound by one conjunct and used as a PROPERTY by a
+		// later one: {"sel":"?x"} then {"set":{"?x":"?y"}} (optionally
+		// under a not), over facts that offer several properties
+		k1 := rapid.SampledFrom([]string{"a", "b", "c"}).Draw(t, "propchain.k1")
+		k2 := rapid.SampledFrom([]string{"a", "b", "c"}).Draw(t, "propchain.k2")
+		c.Facts = append(c.Facts, M{"sel": k1}, M{"set": M{k1: "x", k2: "y", "d": "z"}})
+		second := M{"pattern": M{"set": M{"?x": "?y"}}}
+		switch rapid.IntRange(0, 2).Draw(t, "propchain.form") {
+		case 1:
+			second = M{"not": M{"pattern": M{"set": M{"?x": "y"}}}}
+		case 2:
+			second = M{"pattern": M{"set": M{"?x": "x"}}}
+		}
+		first := M{"pattern": M{"sel": "?x"}}
+		if len(c.Incoming) > 0 {
+			// (?x comes from the event)
+			c.Query = second
+		} else {
+			c.Query = M{"and": A{first, second}}
+		}
+		return c
+	}
 	if rapid.IntRange(0, 19).Draw(t, "malformed?") == 0 {
 		c.Malformed = true
 		c.Query = rapid.SampledFrom([]M{
@@ -200,7 +223,7 @@ type refEval struct {
 	facts []M // own + inherited
 }
 
-// substValues replaces bound variables in value positions (not keys).
+// substValues replaces bound variables (in key position: those bound to strings).
 func substValues(p interface{}, b refmatch.Bindings) interface{} {
 	switch v := p.(type) {
 	case string:
@@ -213,6 +236,15 @@ func substValues(p interface{}, b refmatch.Bindings) interface{} {
 	case M:
 		n := make(M, len(v))
 		for k, y := range v {
+			// a variable in key position that is bound to a string is
+			// substituted like any other ("substituting that binding")
+			if refmatch.IsVar(k) {
+				if x, have := b[k]; have {
+					if s, ok := x.(string); ok {
+						k = s
+					}
+				}
+			}
 			n[k] = substValues(y, b)
 		}
 		return n
